@@ -124,7 +124,7 @@ def run(ctx):
         "job file, backup and lock file live on one local file system with POSIX record locks"]
     if not os.access("/proc/self/syscall", os.R_OK):
         raise vlib.InfraError("/proc/<pid>/syscall is not readable: lock blocking cannot be observed")
-    pool = Pool(exe, 6)
+    pool = Pool(exe, 6 if quick else 8)
     try:
         if getattr(ctx, "replay", None):
             return replay_artifact(ctx, exe, pool)
@@ -140,7 +140,8 @@ def run(ctx):
 def validate_traces(ctx, runs, np_, nt, lockmode, label):
     """runs: list of dict(trace=[records], meta=...).  TLC must accept every recorded execution."""
     chunk = 40
-    for i in range(0, len(runs), chunk):
+
+    def check(i):
         part = runs[i:i + chunk]
         path = vlib.scratch_file("jf-trace-%s-%d.ndjson" % (label, i))
         recs = [r for run in part for r in run["trace"]]
@@ -149,7 +150,7 @@ def validate_traces(ctx, runs, np_, nt, lockmode, label):
 
         def validate():
             r = vlib.tlc("jobfile", "TraceJobFile", cfg="TraceJobFile_%d_%d_%s.cfg" % (np_, nt, lockmode), workers=1,
-                         env={"TRACE": path}, timeout=900)
+                         env={"TRACE": path}, timeout=900, heap="3g")
             maxl = None
             for ln in r.out.splitlines():
                 if '"maxl"' in ln:
@@ -157,42 +158,47 @@ def validate_traces(ctx, runs, np_, nt, lockmode, label):
                     maxl = nums[0]
             return r, maxl
         r, maxl = validate()
-        ctx.add_tlc("TraceJobFile[%s %d..%d]" % (label, i, i + len(part)), r)
+        r2 = maxl2 = None
         if r.violation or maxl is None or maxl != nlines + 1:
             r2, maxl2 = validate()       # report only a repeated rejection
-            if r2.violation or maxl2 != nlines + 1:
-                acc, bad = 0, part[-1]
-                for run in part:
-                    acc += len(run["trace"])
-                    if (maxl2 or 0) <= acc:
-                        bad = run
-                        off = (maxl2 or 0) - (acc - len(run["trace"])) - 1
-                        break
-                else:
-                    off = len(bad["trace"]) - 1
-                off = max(0, min(off, len(bad["trace"]) - 1))
-                rec = bad["trace"][off]
-                at = "?"
-                if rec["e"] == "step" and off > 0:
-                    prev = bad["trace"][off - 1]["s"]
-                    at = "crash" if rec["k"] == 1 else prev["pc"][rec["p"] - 1][rec["t"]]
-                elif rec["e"] == "begin":
-                    at = "initial-state"
-                if r2.violation and "Invariant" in r2.violation:
-                    m = re.search(r"Invariant (\w+)", r2.violation)
-                    key = "trace:invariant:%s" % (m.group(1) if m else "?")
-                    what = "a recorded execution of the real code violates %s" % r2.violation
-                else:
-                    key = "trace:rejected:%s" % at
-                    what = ("a recorded execution of the real code is not a behaviour of the spec: the step of thread (%s,%s) "
-                            "parked at '%s' (record %d of the run) leads to a state the spec does not allow" % (
-                                rec.get("p"), rec.get("t"), at, off))
-                keep = os.path.join(vlib.VERIF, "replays", "C10-rejected-trace.ndjson")
-                os.makedirs(os.path.dirname(keep), exist_ok=True)
-                vlib.write_ndjson(keep, bad["trace"])
-                ctx.violation(key, what, dict(bad["meta"], schedule=[[x["p"], x["t"], x["k"]] for x in bad["trace"] if x["e"] == "step"],
-                                              trace=keep, lockmode=lockmode))
         os.unlink(path)
+        return i, part, nlines, r, r2, maxl2
+    with cf.ThreadPoolExecutor(max_workers=5) as ex:
+        results = list(ex.map(check, range(0, len(runs), chunk)))
+    for i, part, nlines, r, r2, maxl2 in results:
+        ctx.add_tlc("TraceJobFile[%s %d..%d]" % (label, i, i + len(part)), r)
+        if r2 is not None and (r2.violation or maxl2 != nlines + 1):
+            acc, bad = 0, part[-1]
+            for run in part:
+                acc += len(run["trace"])
+                if (maxl2 or 0) <= acc:
+                    bad = run
+                    off = (maxl2 or 0) - (acc - len(run["trace"])) - 1
+                    break
+            else:
+                off = len(bad["trace"]) - 1
+            off = max(0, min(off, len(bad["trace"]) - 1))
+            rec = bad["trace"][off]
+            at = "?"
+            if rec["e"] == "step" and off > 0:
+                prev = bad["trace"][off - 1]["s"]
+                at = "crash" if rec["k"] == 1 else prev["pc"][rec["p"] - 1][rec["t"]]
+            elif rec["e"] == "begin":
+                at = "initial-state"
+            if r2.violation and "Invariant" in r2.violation:
+                m = re.search(r"Invariant (\w+)", r2.violation)
+                key = "trace:invariant:%s" % (m.group(1) if m else "?")
+                what = "a recorded execution of the real code violates %s" % r2.violation
+            else:
+                key = "trace:rejected:%s" % at
+                what = ("a recorded execution of the real code is not a behaviour of the spec: the step of thread (%s,%s) "
+                        "parked at '%s' (record %d of the run) leads to a state the spec does not allow" % (
+                            rec.get("p"), rec.get("t"), at, off))
+            keep = os.path.join(vlib.VERIF, "replays", "C10-rejected-trace-%s.ndjson" % re.sub(r"[^A-Za-z0-9]", "_", key))
+            os.makedirs(os.path.dirname(keep), exist_ok=True)
+            vlib.write_ndjson(keep, bad["trace"])
+            ctx.violation(key, what, dict(bad["meta"], schedule=[[x["p"], x["t"], x["k"]] for x in bad["trace"] if x["e"] == "step"],
+                                          trace=keep, lockmode=lockmode))
 
 
 def report_issues(ctx, res, meta):
@@ -212,12 +218,12 @@ def _run(ctx, exe, pool, quick, rnd):
 
     def one(job):
         name, kw = job
-        return name, vlib.tlc("jobfile", "MCJobFile", cfg=name + ".cfg", timeout=3000, heap="12g", workers=4, **kw)
-    with cf.ThreadPoolExecutor(max_workers=4) as ex:
-        for name, res in ex.map(one, tlc_jobs):
-            vlib.tlc_must_hold(res, "JobFile (%s): safety + liveness with an exclusive lock" % name)
-            ctx.add_tlc(name, res)
-    vlib.log("phase 1 (TLC exhaustive, exclusive lock) done %.0fs" % (time.time() - T0))
+        return name, vlib.tlc("jobfile", "MCJobFile", cfg=name + ".cfg", timeout=3000, heap="12g",
+                              workers=8 if name == "MCP3" else 3, **kw)
+    # the exhaustive runs take the longest and need no input from the other phases: they run in the background and
+    # are collected (and required to hold) at the end
+    tlc_ex = cf.ThreadPoolExecutor(max_workers=5)
+    tlc_futs = [tlc_ex.submit(one, j) for j in tlc_jobs]
 
     # ---- 2. the sharable-lock counterexample must exist in the model and must NOT be realisable on the code -----
     res = vlib.tlc("jobfile", "MCJobFile", cfg="MCSharable.cfg", timeout=600, workers=4)
@@ -272,7 +278,7 @@ def _run(ctx, exe, pool, quick, rnd):
     if quick:
         plan = [("MCEmitCrash", 2, 1, {}, 45), ("MCSimQuick", 2, 1, dict(simulate=40, depth=600, seed=ctx.seed), 15)]
     else:
-        plan = [("MCEmitCrash", 2, 1, {}, 5000), ("MCSim", 2, 1, dict(simulate=600, depth=600, seed=ctx.seed), 400),
+        plan = [("MCEmitCrash", 2, 1, {}, 1200), ("MCSim", 2, 1, dict(simulate=600, depth=600, seed=ctx.seed), 400),
                 ("MCSimP3", 3, 1, dict(simulate=300, depth=600, seed=ctx.seed), 150),
                 ("MCSimT2", 2, 2, dict(simulate=400, depth=600, seed=ctx.seed), 250)]
     for name, np_, nt, kw, lim in plan:
@@ -316,7 +322,7 @@ def _run(ctx, exe, pool, quick, rnd):
     vlib.log("phase 3 (replay of %d TLC behaviours) done %.0fs" % (len(sims), time.time() - T0))
 
     # ---- 4. random controlled runs (crashes inside WRITE_JOBS, lock probes) validated by TLC ------------------------
-    nrand = 70 if quick else 3000
+    nrand = 70 if quick else 1500
     items = []
     for i in range(nrand):
         shape = rnd.choice([(2, 1), (2, 1), (2, 1), (3, 1), (2, 2)])
@@ -418,6 +424,13 @@ def _run(ctx, exe, pool, quick, rnd):
         os.unlink(path)
     ctx.extra["free_runs"] = nfree
     vlib.log("phase 6 (%d free-running executions) done %.0fs" % (nfree, time.time() - T0))
+
+    for f in tlc_futs:
+        name, res = f.result()
+        vlib.tlc_must_hold(res, "JobFile (%s): safety + liveness with an exclusive lock" % name)
+        ctx.add_tlc(name, res)
+    tlc_ex.shutdown()
+    vlib.log("phase 1 (TLC exhaustive, exclusive lock) done %.0fs" % (time.time() - T0))
     ctx.exhaustive = False
 
 
